@@ -307,7 +307,13 @@ LO = [(True, False), (False, True), (True, True)]
 
 def settings(rng, nq):
     # all widths 1..n occur; small widths (where cuts are forced) are favoured
-    W = int(rng.integers(1, nq + 1)) if rng.random() < 0.4 else int(rng.integers(1, max(2, nq // 2 + 1) + 1))
+    u = rng.random()
+    if u < 0.4:
+        W = int(rng.integers(1, nq + 1))
+    elif u < 0.85:
+        W = int(rng.integers(2, max(2, nq // 2 + 1) + 1))
+    else:
+        W = 1
     W = min(W, nq)
     gl, wl = LO[int(rng.integers(0, 3))]
     mg = MAX_GAMMAS[int(rng.choice(len(MAX_GAMMAS), p=[0.1, 0.1, 0.1, 0.15, 0.2, 0.35]))]
@@ -329,7 +335,7 @@ def generate(rng, tier, outdir):
     w = CaseWriter(outdir, IMPORTS, case_types={"chk_fc": "fc_case"})
     w.SHARD = 40
     quick = tier == "quick"
-    n_main = 420 if quick else 6000
+    n_main = 330 if quick else 6000
     n_small = 0 if quick else 1500
     n_mal = 40 if quick else 300
     max2q = 10 if quick else 25
@@ -388,6 +394,30 @@ def generate(rng, tier, outdir):
         w.count("main.max_gamma", inp["max_gamma"])
         w.count("main.max_backjumps", inp["max_backjumps"])
         w.count("main.seed", "None" if inp["seed"] is None else "int")
+
+    # ---- targeted corner cases (every tier) ----
+    targeted = [
+        # greedy pass dead-ends (opaque gate cannot be cut, greedy applied cx before) but the search finds a plan
+        (3, [dict(name="cx", qs=[0, 1]), dict(name="opaque2", qs=[1, 2])]),
+        (4, [dict(name="cx", qs=[2, 0]), dict(name="h", qs=[3]), dict(name="opaque2", qs=[0, 1]), dict(name="cx", qs=[1, 2])]),
+        # the F3 witness of DESIGN section 6
+        (3, [dict(name="cx", qs=[0, 1]), dict(name="swap", qs=[1, 2])]),
+        # no instruction / barriers only / one-qubit gates only / partial barrier touching an idle qubit
+        (2, []),
+        (3, [dict(name="barrier", qs=[0, 1, 2]), dict(name="barrier", qs=[2, 0])]),
+        (3, [dict(name="h", qs=[2]), dict(name="rx", params=[0.25], qs=[0])]),
+        (4, [dict(name="barrier", qs=[3, 1]), dict(name="cx", qs=[1, 2]), dict(name="barrier", qs=[0, 1, 2, 3]), dict(name="swap", qs=[2, 0]),
+             dict(name="cx", qs=[1, 2])]),
+        # the same pair cut repeatedly: both-wire cuts inside one subcircuit
+        (2, [dict(name="cx", qs=[0, 1]), dict(name="cx", qs=[1, 0]), dict(name="iswap", qs=[0, 1])]),
+    ]
+    for nq, ops in targeted:
+        for W in range(1, nq + 1):
+            for gl, wl in LO:
+                for mg, mb in ((1024, 10000), (2, None), (9, 0)):
+                    inp = dict(nq=nq, ops=[dict(o) for o in ops], W=W, gate_lo=gl, wire_lo=wl, max_gamma=mg, max_backjumps=mb,
+                               seed=int(rng.integers(0, 100)))
+                    emit("targeted", inp, nontrivial=True)
 
     # ---- all widths x all cut-kind combinations on the same small circuit (thorough) ----
     for it in range(n_small):
